@@ -1042,6 +1042,16 @@ func (runInfo *runInfoStruct) runChanStmt(stmt *ast.ChanStmt) {
 		runInfo.expr = stmt.OkExpr
 		runInfo.invokeLetExpr()
 		// TODO: ok to ignore error?
+		if runInfo.err != nil {
+			select {
+			case <-runInfo.ctx.Done():
+				// the assignment was stopped by the cancellation: that must not be lost
+				runInfo.err = ErrInterrupt
+				runInfo.rv = nilValue
+				return
+			default:
+			}
+		}
 	}
 
 	if ok {
